@@ -9,6 +9,7 @@
    covered by the correspondence and the sweep only (checks/C27.json). *)
 From Coq Require Import List NArith Bool.
 From Verif Require Import Bytes Facts_AstOps ExprPrintParseM ExprPrintParseInst ExprPrintParse_proofs.
+From Verif Require Import Facts_AstPrim ExprFullM ExprFullOk ExprFullInst ExprFull_inst_proofs.
 Import ListNotations.
 Open Scope N_scope.
 
@@ -43,3 +44,153 @@ Example C27_example :
   c27_roundtrip (Bin 0 12 (Atom 0 1) (Bin 0 12 (Atom 0 2) (Atom 0 3))) =
     Some (Some (Bin 0 12 (Atom 0 1) (Bin 1 12 (Atom 0 2) (Atom 0 3)))).
 Proof. vm_compute. repeat split; reflexivity. Qed.
+
+(* ---- the primary-expression grammar ----
+
+   Expressions: identifiers, literals, unary and binary operators, calls
+   (variadic too), index, slicing (2 and 3 indexes, omitted bounds),
+   selectors, type assertions, composite literals (keyed elements, elided
+   inner types), map, slice, array ([...]T too), channel, function and macro
+   types (named, unnamed, grouped and variadic parameters, results), struct
+   types (embedded fields, tags), interface{}, default and render expressions,
+   function literals (printed as a description).  x_pp follows the String
+   methods of ast/ast.go branch by branch and gives pieces (tokens and
+   spaces); x_relex is the lexer on the printed form, as far as it is
+   modelled (keywords of the syntax, an integer literal before a period,
+   operators printed without a space); x_pexpr follows parseExpr, parseFunc,
+   parseFuncParameters and parseField.
+
+   Statement: for every printable expression, in both values of
+   ast.expandedPrint, in the program and in the template syntax, with
+   canBeSwitchGuard set or not, followed by any tokens suffix whose first one
+   ends an expression: String does not panic, the lexer reads the printed
+   tokens, and parseExpr (with the fuel that parse_top gives it: no
+   out-of-fuel result) returns the expression with the parenthesis counts
+   that the printed form has, and stops at the suffix.  The normalisation is
+   explicit: the result is x_norm e (parentheses only where String writes
+   them), and xerase (x_norm e) = xerase e, where xerase sets every
+   parenthesis count to 0.  x_printable is a boolean function; the shapes it
+   rejects are listed in model/ExprFullOk.v with the finding each belongs to,
+   and refuted below. *)
+Definition C27_primary_statement : Prop :=
+  forall (expanded tmpl guard : bool) (suffix : list tk) (e : ex),
+    x_printable expanded tmpl guard (hd_error suffix) e = true ->
+    exists ps, x_pp expanded e = Some ps /\
+      x_roundtrip expanded tmpl guard suffix e = RtRes (ROk (Some (x_norm e), suffix)) /\
+      xerase (x_norm e) = xerase e.
+
+Theorem C27_parse_print_primary : C27_primary_statement.
+Proof. exact x_roundtrip_printable. Qed.
+Print Assumptions C27_parse_print_primary.
+
+(* the same for a type read with mustBeType (variable and type declarations, conversions) *)
+Theorem C27_parse_print_type :
+  forall (expanded tmpl : bool) (suffix : list tk) (e : ex) (g0 b0 : bool),
+    x_printable_type expanded tmpl (hd_error suffix) e = true ->
+    exists ps, x_pp expanded e = Some ps /\ x_relex tmpl ps = LexOk (toks ps) /\
+      x_pexpr tmpl (fuel_of (toks ps ++ suffix)) (mkfl g0 false true b0) (toks ps ++ suffix) = ROk (Some (x_norm e), suffix) /\
+      xerase (x_norm e) = xerase e.
+Proof. exact x_roundtrip_type. Qed.
+Print Assumptions C27_parse_print_type.
+
+(* the facts about the generated tables that the proof uses *)
+Theorem C27_primary_facts : x_facts_ok = true.
+Proof. exact x_facts. Qed.
+
+(* ---- the shapes that printable rejects: the round trip fails on the model
+   (each witness is replayed on the implementation by the correspondence
+   xround and by the sweep, under the signature given) ---- *)
+
+(* string-drops-parens-of-operator-operand: the selector x of the parenthesised dereference of p
+   is printed as star p.x and read as the dereference of p.x *)
+Example C27_operator_operand_refuted :
+  let e := XSel 0 (XUn 1 24 (XIdent 0 [112])) [120] in
+  x_printable false false false None e = false /\
+  x_roundtrip false false false [] e = RtRes (ROk (Some (XUn 0 24 (XSel 0 (XIdent 0 [112]) [120])), [])) /\
+  xerase (XUn 0 24 (XSel 0 (XIdent 0 [112]) [120])) <> xerase e.
+Proof. cbv zeta. split; [vm_compute; reflexivity|]. split; [vm_compute; reflexivity|]. vm_compute. discriminate. Qed.
+
+(* string-drops-parens-of-default-operand: (a default b) + c is printed a default b + c and read as a default (b + c) *)
+Example C27_default_operand_refuted :
+  let e := XBin 0 11 (XDefault 1 (XIdent 0 [97]) (XIdent 0 [98])) (XIdent 0 [99]) in
+  x_printable false true false None e = false /\
+  x_roundtrip false true false [] e =
+    RtRes (ROk (Some (XDefault 0 (XIdent 0 [97]) (XBin 0 11 (XIdent 0 [98]) (XIdent 0 [99]))), [])) /\
+  xerase (XDefault 0 (XIdent 0 [97]) (XBin 0 11 (XIdent 0 [98]) (XIdent 0 [99]))) <> xerase e.
+Proof. cbv zeta. split; [vm_compute; reflexivity|]. split; [vm_compute; reflexivity|]. vm_compute. discriminate. Qed.
+
+(* string-chan-of-chan-ambiguous: chan (<-chan int) is printed chan <-chan int and read as chan<- (chan int) *)
+Example C27_chan_of_chan_refuted :
+  let e := XChan 0 0 (XChan 1 1 (XIdent 0 [105; 110; 116])) in
+  x_printable false false false None e = false /\
+  x_roundtrip false false false [] e = RtRes (ROk (Some (XChan 0 2 (XChan 0 0 (XIdent 0 [105; 110; 116]))), [])) /\
+  xerase (XChan 0 2 (XChan 0 0 (XIdent 0 [105; 110; 116]))) <> xerase e.
+Proof. cbv zeta. split; [vm_compute; reflexivity|]. split; [vm_compute; reflexivity|]. vm_compute. discriminate. Qed.
+
+(* string-number-literal-before-dot-ambiguous: (1_000).s is printed 1_000.s, the lexer reads the
+   floating-point literal 1_000. and parseExpr stops before s; append(s, 5...) does not parse *)
+Example C27_number_before_dot_refuted :
+  let e := XSel 0 (XLit 1 2 [49; 95; 48; 48; 48]) [115] in
+  x_printable false false false None e = false /\
+  x_roundtrip false false false [] e = RtRes (ROk (Some (XLit 0 3 [49; 95; 48; 48; 48; 46]), [KIdent [115]])) /\
+  x_roundtrip false false false [] (XCall 0 (XIdent 0 [102]) [XIdent 0 [115]; XLit 0 2 [53]] true) = RtRes RErr.
+Proof. cbv zeta. repeat split; vm_compute; reflexivity. Qed.
+
+(* a result type that starts with an arrow, as in func() (<-chan int) printed func() <-chan int: the
+   parser did not take the arrow as the start of a result (parseFuncParameters); repaired in the
+   implementation (the generated list gen_result_start has the arrow), so that the shape is printable *)
+Example C27_result_arrow_repaired :
+  let e := XFunc 0 false [] [(None, Some (XChan 0 1 (XIdent 0 [105; 110; 116])))] false in
+  x_printable false false false None e = true /\
+  x_roundtrip false false false [] e = RtRes (ROk (Some e, [])).
+Proof. cbv zeta. split; vm_compute; reflexivity. Qed.
+
+(* string-call-of-type-ending-in-func (new): ([]func())(f) is printed []func()(f) and read as
+   the slice type []func() (f) *)
+Example C27_conversion_to_func_refuted :
+  let e := XCall 0 (XSlice 1 (XFunc 0 false [] [] false)) [XIdent 0 [102]] false in
+  x_printable false false false None e = false /\
+  x_roundtrip false false false [] e =
+    RtRes (ROk (Some (XSlice 0 (XFunc 0 false [] [(None, Some (XIdent 0 [102]))] false)), [])) /\
+  xerase (XSlice 0 (XFunc 0 false [] [(None, Some (XIdent 0 [102]))] false)) <> xerase e.
+Proof. cbv zeta. split; [vm_compute; reflexivity|]. split; [vm_compute; reflexivity|]. vm_compute. discriminate. Qed.
+
+(* ---- non-vacuity: large expressions that are printable ---- *)
+(* a variadic call f(a + b times c, []int{}, m[k].x[1:2:3], conversion of p to pointer to T, receive from ch,
+     type assertion of x to chan<- func(a, b int, c ...string) (r []map[string] pointer to pkg.T, err error), s...)
+   followed by a semicolon *)
+Example C27_primary_example_program :
+  x_printable false false false (Some KSemi)
+    (XCall 0 (XIdent 0 [102]) [(XBin 0 11 (XIdent 0 [97]) (XBin 0 13 (XIdent 0 [98]) (XIdent 0 [99]))); (XCompLit 0 (Some (XSlice 0 (XIdent 0 [105; 110; 116]))) []); (XSlicing 0 (XSel 0 (XIndex 0 (XIdent 0 [109]) (XIdent 0 [107])) [120]) (Some (XLit 0 2 [49])) (Some (XLit 0 2 [50])) (Some (XLit 0 2 [51])) true); (XCall 0 (XUn 1 24 (XIdent 0 [84])) [(XIdent 0 [112])] false); (XUn 0 22 (XIdent 0 [99; 104])); (XTypeAssert 0 (XIdent 0 [120]) (Some (XChan 0 2 (XFunc 0 false [((Some [97]), None); ((Some [98]), (Some (XIdent 0 [105; 110; 116]))); ((Some [99]), (Some (XIdent 0 [115; 116; 114; 105; 110; 103])))] [((Some [114]), (Some (XSlice 0 (XMap 0 (Some (XIdent 0 [115; 116; 114; 105; 110; 103])) (XUn 0 24 (XSel 0 (XIdent 0 [112; 107; 103]) [84])))))); ((Some [101; 114; 114]), (Some (XIdent 0 [101; 114; 114; 111; 114])))] true)))); (XIdent 0 [115])] true) = true.
+Proof. vm_compute. reflexivity. Qed.
+
+(* with ast.expandedPrint: map[string][]T{a: {{x: 1}, {}}, b: nil, f(1): {2: {}}}, a and b string literals *)
+Example C27_primary_example_composite :
+  x_printable true false false None
+    (XCompLit 0 (Some (XMap 0 (Some (XIdent 0 [115; 116; 114; 105; 110; 103])) (XSlice 0 (XIdent 0 [84])))) [((Some (XLit 0 0 [34; 97; 34])), (XCompLit 0 None [(None, (XCompLit 0 None [((Some (XIdent 0 [120])), (XLit 0 2 [49]))])); (None, (XCompLit 0 None []))])); ((Some (XLit 0 0 [34; 98; 34])), (XIdent 0 [110; 105; 108])); ((Some (XCall 0 (XIdent 0 [102]) [(XLit 0 2 [49])] false)), (XCompLit 0 None [((Some (XLit 0 2 [50])), (XCompLit 0 None []))]))]) = true.
+Proof. vm_compute. reflexivity. Qed.
+
+(* template syntax: not a and b contains c or f(x default g(y), render p.html) not contains -z, before the closing braces *)
+Example C27_primary_example_template :
+  x_printable false true false (Some (KSym [125; 125]))
+    (XBin 0 26 (XBin 0 25 (XUn 0 27 (XIdent 0 [97])) (XBin 0 20 (XIdent 0 [98]) (XIdent 0 [99]))) (XBin 0 21 (XCall 0 (XIdent 0 [102]) [(XDefault 0 (XIdent 0 [120]) (XCall 0 (XIdent 0 [103]) [(XIdent 0 [121])] false)); (XRender 0 [112; 46; 104; 116; 109; 108])] false) (XUn 0 12 (XIdent 0 [122])))) = true.
+Proof. vm_compute. reflexivity. Qed.
+
+(* struct { a, b int; c func(...interface{}) chan int with tag t; embedded pointer to pkg.E; D }{}.c(1.5, 2i, (<-chan int)(q))[:n] *)
+Example C27_primary_example_struct :
+  x_printable false false false None
+    (XSlicing 0 (XCall 0 (XSel 0 (XCompLit 0 (Some (XStruct 0 [([[97]; [98]], (XIdent 0 [105; 110; 116]), []); ([[99]], (XFunc 0 false [(None, (Some (XInterface 0)))] [(None, (Some (XChan 0 0 (XIdent 0 [105; 110; 116]))))] true), [116]); ([], (XUn 0 24 (XSel 0 (XIdent 0 [112; 107; 103]) [69])), []); ([], (XIdent 0 [68]), [])])) []) [99]) [(XLit 0 3 [49; 46; 53]); (XLit 0 4 [50; 105]); (XCall 0 (XChan 1 1 (XIdent 0 [105; 110; 116])) [(XIdent 0 [113])] false)] false) None (Some (XIdent 0 [110])) None false) = true.
+Proof. vm_compute. reflexivity. Qed.
+
+(* x.y.(type) as the guard of a type switch, before the block *)
+Example C27_primary_example_guard :
+  x_printable false false true (Some (KSym [123; 123])) (XTypeAssert 0 (XSel 0 (XIdent 0 [120]) [121]) None) = true /\
+  x_printable false false false None (XTypeAssert 0 (XSel 0 (XIdent 0 [120]) [121]) None) = false.
+Proof. split; vm_compute; reflexivity. Qed.
+
+(* a type read with mustBeType *)
+Example C27_type_example :
+  x_printable_type false false None
+    (XMap 0 (Some (XIdent 0 [115])) (XSlice 0 (XChan 0 1 (XFunc 0 false [(Some [97], Some (XUn 0 24 (XSel 0 (XIdent 0 [112]) [84])))]
+                                                     [(None, Some (XArray 0 (Some (XLit 0 2 [52])) (XInterface 0)))] false)))) = true.
+Proof. vm_compute. reflexivity. Qed.
